@@ -179,7 +179,11 @@ def r1_construction(repo, rep):
     rep.fn(view.f)
     for p in view.pushed:
       n += 1
-      rep.check(bool(p.args) and p.T is not None and p.C is not None, 'R1/construction', '%s pushes TBRMMDesign(...) objects' % name, view.f.qualname,
+      okp = bool(p.args) and p.T is not None and p.C is not None
+      if not okp and (isinstance(p.ctor, ast.Name) or (isinstance(p.ctor, ast.Call) and not norm(p.ctor.func).split('.')[-1][:1].isupper()) or au.aliens(p.ctor, ())):
+        rep.undecided('R1/construction', '%s push' % name, 'the pushed object `%s` is not visibly constructed in this function' % norm(p.ctor)[:60], view.f.loc(p.push_call))
+        continue
+      rep.check(okp, 'R1/construction', '%s pushes TBRMMDesign(...) objects' % name, view.f.qualname,
                 norm(p.push_call), '%s pushes an object that is not built by the TBRMMDesign constructor: the non-empty/disjoint check is bypassed' % name,
                 view.f.loc(p.push_call))
   rep.floor('push sites', n, 2)
